@@ -831,11 +831,74 @@ func (m *Machine) iteChain(idx *Term, n int, at func(int) Scalar, w int) Scalar 
 	return fromTerm(build(0, len(runs)-1))
 }
 
+// sizeOf: the size in bytes of a value of type t on amd64 (for allocation accounting and the
+// makeslice range check).
+func sizeOf(t types.Type) int64 {
+	switch u := t.Underlying().(type) {
+	case *types.Basic:
+		switch {
+		case u.Info()&types.IsString != 0:
+			return 16
+		case u.Kind() == types.UnsafePointer:
+			return 8
+		}
+		if w := widthOf(u); w > 0 {
+			return int64(w / 8)
+		}
+		return 1
+	case *types.Pointer, *types.Map, *types.Chan, *types.Signature:
+		return 8
+	case *types.Slice:
+		return 24
+	case *types.Interface:
+		return 16
+	case *types.Struct:
+		n := int64(0)
+		for i := 0; i < u.NumFields(); i++ {
+			sz := sizeOf(u.Field(i).Type())
+			al := sz
+			if al > 8 {
+				al = 8
+			}
+			if al > 0 && n%al != 0 {
+				n += al - n%al
+			}
+			n += sz
+		}
+		if n%8 != 0 && n > 8 {
+			n += 8 - n%8
+		}
+		return n
+	case *types.Array:
+		return u.Len() * sizeOf(u.Elem())
+	}
+	return 8
+}
+
+// account adds n bytes (possibly a term) to the allocation counter (nd.AllocStart/AllocBytes).
+func (m *Machine) account(n Scalar) {
+	if !m.allocOn {
+		return
+	}
+	if n.sym == nil && m.allocBytes.sym == nil {
+		m.allocBytes = conc(64, m.allocBytes.c+n.c)
+		return
+	}
+	m.allocBytes = fromTerm(tBV("bvadd", m.allocBytes.term(64), n.term(64)))
+}
+
+// maxAllocBytes: a make whose size can exceed this is reported as a crash (Go panics above 2^48
+// bytes and dies with "out of memory" long before on any real machine).
+const maxAllocBytes = int64(1) << 36
+
 func (m *Machine) makeSlice(t types.Type, ln, cp Scalar, lt types.Type) value {
 	ln, cp = m.idx64(ln, lt), m.idx64(cp, lt)
 	et := t.Underlying().(*types.Slice).Elem()
-	// len>=0, cap>=len, cap <= maxAlloc/elemsize
-	const maxElems = int64(1) << 40
+	esz := sizeOf(et)
+	if esz < 1 {
+		esz = 1
+	}
+	maxElems := maxAllocBytes / esz
 	if ln.sym == nil && cp.sym == nil {
 		if int64(ln.c) < 0 || int64(ln.c) > maxElems {
 			m.goPanicStr("runtime error: makeslice: len out of range")
@@ -847,6 +910,7 @@ func (m *Machine) makeSlice(t types.Type, ln, cp Scalar, lt types.Type) value {
 		if n > 1<<22 {
 			m.stop("inconclusive", "huge concrete make %d", n)
 		}
+		m.account(conc(64, uint64(int64(n)*esz)))
 		arr := make(Array, n)
 		z := zero(et)
 		if _, ok := z.(Scalar); ok {
@@ -863,8 +927,9 @@ func (m *Machine) makeSlice(t types.Type, ln, cp Scalar, lt types.Type) value {
 	l, c := ln.term(64), cp.term(64)
 	ok := tAnd(tAnd(tCmp("bvsge", l, tConst(64, 0)), tCmp("bvsle", l, c)), tCmp("bvsle", c, tConst(64, uint64(maxElems))))
 	if !m.branch(ok) {
-		m.goPanicStr("runtime error: makeslice: len/cap out of range (symbolic)")
+		m.goPanicStr("runtime error: makeslice: len/cap out of range or beyond available memory (size controlled by input)")
 	}
+	m.account(fromTerm(tBV("bvmul", c, tConst(64, uint64(esz)))))
 	// symbolic capacity: sparse array grows on demand
 	o := m.newObj(Array{})
 	o.grow = zero(et)
